@@ -2,6 +2,7 @@ package wrap
 
 import (
 	"bytes"
+	"math"
 	"sync"
 
 	"github.com/go-text/typesetting/di"
@@ -17,21 +18,21 @@ import (
 // alphabet of the synthetic paragraphs (line-break classes in comments)
 var alphabet = []rune{
 	'a', 'b', // AL
-	' ',      // SP
-	' ', // GL
-	'-',      // HY
-	'\n',     // LF
-	' ', // BK
-	'中',      // ID
-	'́', // CM
-	'‍', // ZWJ
-	'1',      // NU
-	',',      // IS
-	'א',      // HL
-	0x85,     // NL (mandatory)
-	0x0B,     // BK (VT)
-	'\r',     // CR
-	0x2029,   // BK (PS)
+	' ',    // SP
+	' ',    // GL
+	'-',    // HY
+	'\n',   // LF
+	' ',    // BK
+	'中',    // ID
+	'́',    // CM
+	'‍',    // ZWJ
+	'1',    // NU
+	',',    // IS
+	'א',    // HL
+	0x85,   // NL (mandatory)
+	0x0B,   // BK (VT)
+	'\r',   // CR
+	0x2029, // BK (PS)
 }
 
 var smallAlphabet = []rune{'a', ' ', '-', '\n', '́', '中'}
@@ -207,11 +208,14 @@ func randomConfig(r *gen.RNG, c *Case, total int) {
 		nw = 1 + r.Intn(4)
 	}
 	for i := 0; i < nw; i++ {
-		switch r.Intn(6) {
+		switch r.Intn(7) {
 		case 0:
 			c.Widths = append(c.Widths, 0)
 		case 1:
 			c.Widths = append(c.Widths, total+1)
+		case 2:
+			// "do not wrap" widths, beyond what a 26.6 fixed-point number holds
+			c.Widths = append(c.Widths, gen.Pick(r, []int{1 << 25, 1<<25 - 1, 1 << 26, math.MaxInt32, math.MaxInt32 + 1, math.MaxInt}))
 		default:
 			c.Widths = append(c.Widths, r.Intn(total+2))
 		}
